@@ -72,7 +72,7 @@ def run(ctx):
     binary = uc.build()
     n = ctx.pick(400_000, 16_000_000)
     # the Miri leg (slow start-up) runs concurrently with the native legs
-    miri_shards, miri_per = ctx.pick((16, 60), (16, 1500))
+    miri_shards, miri_per = ctx.pick((8, 40), (16, 1000))
     with ThreadPoolExecutor(max_workers=1) as bg:
         miri_future = bg.submit(uc.miri_sharded, ctx, "parse", "c07", miri_shards, miri_per)
         rep, crashes = uc.run_sharded(ctx, binary, "parse", "c07", n, 5000)
@@ -100,7 +100,7 @@ def run(ctx):
         smallest[sig] = c
         violations.append({"rule": rule, "signature": sig,
                            "what": f"parser process died with {c['signal']} on extreme input {c['kind']} n={c['n']} "
-                                   f"(8 MiB stack): {c['stderr_tail'].strip()[-120:]}",
+                                   f"(8 MiB stack): {' '.join(c['stderr_tail'].split())[-120:]}",
                            "witness": dict(c, replay=f"prlimit --stack=8388608 harness/target/verif/util_tools "
                                                      f"parse-extreme --kind {c['kind']} --n {c['n']}")})
 
